@@ -16,7 +16,7 @@ type TypeOpts struct {
 	Small        bool
 }
 
-var nastyParts = []string{"plain", "with \"quotes\"", "back\\slash", "tab\there", "üñíçødé", "emoji 😀", "trail\\", "\"", "a \"\"\" b", "x\\n literal", "{braces}", "#hash", "'single'", "ctrl\x01char", "esc\x1b[31m", "vt\x0bff\x0c", "so\x0e si\x0f sub\x1a us\x1f", "bell\x07", "semi;colon", "日本語", "\\\\double", "q\"\"q", "slower by 20%, use ratio", "100%", "%d of %s", "%!v(PANIC)", "ends with a quote\"", "10%\rdone", "cr\rin a line with a \"quote\"",
+var nastyParts = []string{"plain", "tag \U000E0020 char", "last \U0010FFFF rune", "with \"quotes\"", "back\\slash", "tab\there", "üñíçødé", "emoji 😀", "trail\\", "\"", "a \"\"\" b", "x\\n literal", "{braces}", "#hash", "'single'", "ctrl\x01char", "esc\x1b[31m", "vt\x0bff\x0c", "so\x0e si\x0f sub\x1a us\x1f", "bell\x07", "semi;colon", "日本語", "\\\\double", "q\"\"q", "slower by 20%, use ratio", "100%", "%d of %s", "%!v(PANIC)", "ends with a quote\"", "10%\rdone", "cr\rin a line with a \"quote\"",
 	// a quote directly followed by a backslash, runs of four and more quotes
 	"a \"\\ b", "quote then backslash \"\\", "four \"\"\"\" quotes", "five \"\"\"\"\" q", "\"\"\"\"", "\"\\n is not a line end"}
 
